@@ -35,6 +35,7 @@ Fixpoint rown (j n : nat) (ops : list rop) : list eop :=
           end
       | RHelper k o => only_when (Nat.eqb k j) (EHelper o) ++ rown j n r
       | RCaller k t' => only_when (Nat.eqb k j) (ECaller t') ++ rown j n r
+      | RRaised _ _ => rown j n r
       end
   end.
 End WithOracles.
